@@ -148,6 +148,9 @@ def rw_for_by_ref(text):
     return text, count
 
 
+TOTAL_VARIANTS = set()
+
+
 def read_template(path):
     """template lines; `//@insert FILE` is replaced by the lines of specs/FILE (one contract text shared by two templates)"""
     out = []
@@ -164,7 +167,12 @@ def read_template(path):
             out.append(ln)
     while out and out[-1] == '' and path.endswith('.inc'):
         out.pop()
-    return expand_foreach(out, path)
+    out = expand_foreach(out, path)
+    for ln in out:
+        m = re.match(r'\s*//@fn\s+(.*?)\s*::\s*(\w+)\b.*\brename=\w+_total\b', ln)
+        if m:
+            TOTAL_VARIANTS.add((m.group(1).strip(), m.group(2)))
+    return out
 
 
 def expand_foreach(lines, path):
@@ -556,6 +564,32 @@ def expand_macro(text, spec, rel_file):
     return blank + body + '\n'
 
 
+def rw_checked_index(text):
+    """R20 (continued): in a total variant the CHECKED indexing `X[i]` of the source (not the accesses that rewrite R2 produces from
+    get_unchecked: those stay obligations, so this runs BEFORE R2) becomes `verif_checked_index(&X, i)`, which returns only for an index
+    inside the vector"""
+    mask_ = code_mask(text)
+    out_, pos_, k_ = [], 0, 0
+    for m_ in re.finditer(r'((?:self|[a-z_][A-Za-z0-9_]*)(?:\.[a-z_][A-Za-z0-9_]*)*)\[', text):
+        if m_.start() < pos_ or not mask_[m_.start()]:
+            continue
+        d_, j_ = 0, m_.end()
+        while j_ < len(text):
+            ch = text[j_]
+            if ch in '([{':
+                d_ += 1
+            elif ch in ')]}':
+                if d_ == 0:
+                    break
+                d_ -= 1
+            j_ += 1
+        if j_ >= len(text) or text[j_] != ']' or '..' in text[m_.end():j_]:
+            continue
+        out_.append(text[pos_:m_.start()]); out_.append('verif_checked_index(&%s, %s)' % (m_.group(1), text[m_.end():j_].strip())); pos_ = j_ + 1; k_ += 1
+    out_.append(text[pos_:])
+    return ''.join(out_), k_
+
+
 def rw_option_map(text, lo):
     """R18: `RECV.map(|PAT| EXPR)` -> `(match RECV { Some(PAT) => Some(EXPR), None => None })` and `RECV.map_or(D, |PAT| EXPR)` ->
     `(match RECV { Some(PAT) => EXPR, None => D })` for closure literals with an expression body"""
@@ -646,7 +680,12 @@ def weave_fn(src, container, name, nth, opts, subs, mode, sig_only=False):
                 if src.depth_at(s_, o_ + 1) == 0:
                     nfn += 1
         check_anchor('%s:%s|impl-fns' % (os.path.relpath(src.path, getattr(src, 'root', os.path.dirname(src.path))), container), nfn)
-    text, k = rw_get_unchecked(raw)
+    pre_ = raw
+    if any(kind == 'checked_index_total' for kind, arg, lines in subs):
+        pre_, k0_ = rw_checked_index(raw)
+        if k0_:
+            rewrites['R20'] = rewrites.get('R20', 0) + k0_
+    text, k = rw_get_unchecked(pre_)
     if k:
         rewrites['R2'] = k
     text, k = rw_underscore_closures(text)
@@ -700,6 +739,13 @@ def weave_fn(src, container, name, nth, opts, subs, mode, sig_only=False):
             text = ''.join(out_)
             if k1 + k2:
                 rewrites['R20'] = k1 + k2
+    for kind, arg, lines in subs:
+        if kind == 'wrapping_add_assign':
+            # R20 (continued), safety-only total variants: `x += e;` -> `x = x.wrapping_add(e);` - the release build wraps and goes on, the debug
+            # build panics (the path ends): the wrapping form covers both, and what follows must be safe for ANY value of x
+            text, k_ = re.subn(r'(?m)^(\s*)([a-z_][A-Za-z0-9_]*)\s*\+=\s*([^;]+);', lambda m: '%s%s = %s.wrapping_add(%s);' % (m.group(1), m.group(2), m.group(2), m.group(3).strip()), text)
+            if k_:
+                rewrites['R20'] = rewrites.get('R20', 0) + k_
     for kind, arg, lines in subs:
         if kind == 'assoc_type':
             # R19: `//@assoc_type Self::ValueIter ValueIter<'a>` - an associated type of the trait written out as the type the impl block
@@ -823,7 +869,8 @@ def weave_fn(src, container, name, nth, opts, subs, mode, sig_only=False):
         # a SAFE function under contract: the number of unchecked operations in its body is locked.  The contract of a safe function speaks
         # about arguments inside its precondition; what happens outside it (panic, not an out-of-bounds access: C08) rests on WHICH
         # operations are unchecked, so a new one means the safety argument has to be looked at again - undecided, not passed
-        if not re.search(r'\bunsafe\s+fn\b', b.text[:bo]):
+        # (not where the template also weaves a TOTAL variant of the same function - rewrite R20: that variant decides arguments outside the precondition)
+        if not re.search(r'\bunsafe\s+fn\b', b.text[:bo]) and (container, name) not in TOTAL_VARIANTS:
             nun = len([m for m in re.finditer(r'_unchecked\s*\(|\bfrom_raw_parts(?:_mut)?\s*\(|\bunsafe\s*\{', raw) if code_mask(raw)[m.start()]])
             check_anchor('%s|unchecked-ops' % akey, nun)
         want_ = anchor_lock().get('%s|closure-heads' % akey)
@@ -852,7 +899,7 @@ def weave_fn(src, container, name, nth, opts, subs, mode, sig_only=False):
     # collect sub-directives
     for kind, arg, lines in subs:
         body_text = '\n'.join(lines)
-        if kind in ('inst', 'rename_generic', 'desugar_by_ref', 'desugar_for', 'desugar_for_into', 'desugar_closure_patterns', 'model_adapters', 'deref_operand', 'call_rename', 'collect_as', 'hoist_for_pattern', 'assoc_type', 'panic_atomic'):
+        if kind in ('inst', 'rename_generic', 'desugar_by_ref', 'desugar_for', 'desugar_for_into', 'desugar_closure_patterns', 'model_adapters', 'deref_operand', 'call_rename', 'collect_as', 'hoist_for_pattern', 'assoc_type', 'panic_atomic', 'checked_index_total', 'wrapping_add_assign'):
             continue
         if kind == 'attr':
             if not sig_only:
@@ -1404,7 +1451,18 @@ class Unit:
                         if subs:
                             subs[-1][2].append(lines[i])
                     i += 1
-                text, rec, lmap = weave_fn(self.source(cur_src), container, name, nth, opts, subs, mode, sig_only=(d == 'sig'))
+                try:
+                    text, rec, lmap = weave_fn(self.source(cur_src), container, name, nth, opts, subs, mode, sig_only=(d == 'sig'))
+                except Undecided as e_:
+                    # an anchor of THIS function is lost.  Where the template also weaves a total variant of the same source function (R20),
+                    # that variant can still decide: the function is rendered as its contract only (no proof hints, body not verified)
+                    # and the loss is recorded - the unit is undecided unless something else in it fails
+                    if d == 'fn' and mode == 'verify' and (container, name) in TOTAL_VARIANTS and not str(opts.get('rename', '')).endswith('_total'):
+                        keep = [x for x in subs if x[0] in ('ret', 'spec', 'inst', 'rename_generic')]
+                        text, rec, lmap = weave_fn(self.source(cur_src), container, name, nth, dict(opts, status='A'), keep, mode, sig_only=False)
+                        self.lost = getattr(self, 'lost', []) + [str(e_)]
+                    else:
+                        raise
                 rec['file'] = cur_src
                 rec['unit'] = self.name
                 rec['unit_line'] = len(self.out) + 2
@@ -1452,4 +1510,4 @@ if __name__ == '__main__':
         sys.exit(2)
     out = sys.argv[3] if len(sys.argv) > 3 else '/dev/stdout'
     open(out, 'w').write(u.text())
-    json.dump({'fns': u.fns, 'items': u.items}, sys.stderr, indent=1)
+    json.dump({'fns': u.fns, 'items': u.items, 'lost': getattr(u, 'lost', [])}, sys.stderr, indent=1)
